@@ -53,6 +53,20 @@ def perm_twins(rng, req, p, k=1):
 
 # ---------------------------------------------------------------- utility
 def drv_utility(tier, rng):
+    groups = drv_utility_main(tier, rng)
+    # many alternatives (13 .. 20) with ties: order by value then id, whatever the size (helpers that change behaviour above a dozen)
+    for t in range(12 if tier == 'quick' else 200):
+        method = rng.choice(['weightedSum', 'owa', 'choquetIntegral'])
+        n = rng.randint(13, 20)
+        known = [{'id': ALT[i], 'criteria': {'c1': Q * rng.choice([0, 4, 8])}} for i in range(n)]
+        rng.shuffle(known)
+        req = {'preferenceFunction': method, 'knownAlternatives': known, 'choseToMake': [a['id'] for a in known],
+               'criteria': [crit(0, 'gain')], 'methodParameters': {'weights': {'c1': UNIT}}, 'biases': []}
+        groups.append([base_case(r, group={'id': 'x', 'rel': 'perm', 'p': 'C04'}) for r in perm_twins(rng, req, 'C04', 1)])
+    return groups
+
+
+def drv_utility_main(tier, rng):
     groups = []
     N = 150 if tier == 'quick' else 3000
     for t in range(N):
